@@ -42,7 +42,7 @@ def _tower(partial):
 PROPS["C01"] = _tower("proved for every block and every reachable state: every held appointment whose locator matches a transaction of the connected block and whose blob decrypts has its penalty dealt with before the watcher finishes the block (both nested loops composed, aborts included); rows with other locators untouched. The outcome half (tracker with exactly that data / only that appointment dropped) is per loop iteration + monitors. `-27 already in chain` leaves the appointment watched without a tracker (known finding under C03). Late appointments after a reorg can miss the 6-block window (known finding, C19 deficit).")
 PROPS["C02"] = _tower("call sites of sendrawtransaction enumerated and each bounded by a theorem; the union over whole histories is a theorem too (ghost-record invariant GInv, Lemmas/TowerJust), and is re-checked by the C02 monitor on every RPC of every explored history of the real code.")
 PROPS["C04"] = _tower("per-tracker theorems for each of the four loops + block-level refund theorem; confirmed-only-in-the-active-chain is proved for every valid history against a ghost active chain (validity: block hashes and txids not repeated in the active chain, connection at tip+1, disconnection of the tip, reorgs no deeper than the 100 blocks the responder holds). Periodic re-submission and the 100-confirmation completion are per step + monitors.")
-PROPS["C06"] = _tower("recover_pk is an input (the signer); the byte-exact request messages are recomputed by the harness independently of the tower's code. History level: every appointment row of every reachable state was put there by an authenticated add_appointment of its owner; non-interference of whole histories (reads included) is per operation (FrameK) + monitors.")
+PROPS["C06"] = _tower("recover_pk is an input (the signer); the byte-exact request messages are recomputed by the harness independently of the tower's code. History level: every appointment row of every reachable state was put there by an authenticated add_appointment of its owner; non-interference of whole request histories is a theorem (requests_of_others_change_nothing: the per-operation frames composed); blocks act on every user's data by design and are covered by the block-level theorems + monitors.")
 PROPS["C07"] = _tower("conservation proved in differential form per primitive, memory = disk for every history; the SUM form is a theorem for whole histories in the form available + occupied <= granted (ghost count of accepted registrations since the user's current record began; Lemmas/TowerSlots: no step adds more than it grants, a refund returns exactly what the deleted rows occupied); the forfeited amount is the difference and is not named event by event. The monitor recomputes the sum from the real tables after every operation. f32 formula proved exact below 2^24 and compared exhaustively with the real function.")
 PROPS["C07"]["components"] = ["tower", "slots"]
 # restarts that replay blocks (the recorded block lags behind a long poll) are explored by the crash component
